@@ -276,6 +276,10 @@ func (s *shared) runPath(fn *ssa.Function, item workItem, solver *Solver, cfg *C
 		if m != nil {
 			p.viols = append(p.viols, violation{Harness: p.harness, Label: "panic", Decisions: append([]int(nil), p.decisions...),
 				Tape: i.fillTape(m), Model: modelStrings(m), Detail: detail, Panic: true})
+		} else if res == "unsat" {
+			// the path condition is unsatisfiable (a branch kept after an "unknown" answer, or
+			// assumptions added since): no execution takes this path
+			outcome, detail = "infeasible", ""
 		} else {
 			outcome, detail = "unsupported", "panic path without model (" + res + ", decisions " + decString(p.decisions) + "): " + detail
 		}
